@@ -1488,7 +1488,10 @@ def model_catch_warnings(interp, args, kwargs, node):
 
 @model(_warnings.simplefilter, always=True)
 def model_simplefilter(interp, args, kwargs, node):
-    interp.ctx.ghost['wfilter'] = args[0]
+    # the filter in force: the action for *every* warning category, or the action restricted to one category (which is a different filter:
+    # warnings of other categories keep the default action)
+    cat = kwargs.get('category', args[1] if len(args) > 1 else Warning)
+    interp.ctx.ghost['wfilter'] = args[0] if cat is Warning else f'{args[0]}:{builtins.getattr(cat, "__name__", cat)}-only'
     return None
 
 
